@@ -2,10 +2,10 @@
 # tools/confirm_seed.sh <seeded dir with patch.diff + demo.cpp>  — confirm in the full-build scratch worktree
 # (/var/tmp/seedfull): patch applies, builds, full ctest matches baseline, demo FAILS with / PASSES without the change.
 set -u
-D=$(realpath "$1"); W=/var/tmp/seedfull; B=$W/_build
+D=$(realpath "$1"); W=${SEEDFULL:-/var/tmp/seedfull}; B=$W/_build
 git -C $W checkout -q -- . ; git -C $W merge -q --ff-only $(git -C /repo rev-parse HEAD) 2>/dev/null || git -C $W checkout -q --detach $(git -C /repo rev-parse HEAD)
 INC=$(grep "INCLUDES = " $B/build.ninja | tr ' ' '\n' | grep '^-I' | sort -u)
-demo() { g++ -std=c++17 -O2 -DNDEBUG $INC $D/demo.cpp -L$B -lSimTKsimbody -lSimTKmath -lSimTKcommon -lpthread -Wl,-rpath,$B -o /var/tmp/seed_demo 2>&1 | tail -3; /var/tmp/seed_demo > /var/tmp/seed_demo.out 2>&1; echo "demo rc=$? $(tail -1 /var/tmp/seed_demo.out)"; }
+demo() { g++ -std=c++17 -O2 -DNDEBUG $INC $D/demo.cpp -L$B -lSimTKsimbody -lSimTKmath -lSimTKcommon -lpthread -Wl,-rpath,$B -o $W/../seed_demo_$(basename $W) 2>&1 | tail -3; $W/../seed_demo_$(basename $W) > $W/../seed_demo_$(basename $W).out 2>&1; echo "demo rc=$? $(tail -1 $W/../seed_demo_$(basename $W).out)"; }
 git -C $W apply $D/patch.diff || { echo "PATCH DOES NOT APPLY"; exit 3; }
 nice cmake --build $B -j10 2>&1 | grep -E "error|FAILED" | head -5
 echo "--- with change:"; ctest --test-dir $B -j8 --timeout 900 2>&1 | grep -E "tests passed|Failed|\(Failed\)" ; demo
